@@ -284,16 +284,20 @@ Definition panic_table : list (string * string) := [
    "type fixed by the caller: parameter key table, or the transaction type checked earlier in the ante chain")].
 
 Definition range_table : list (string * string) := [
-  ("x/oracle/abci.go|EndBlocker|range|validatorClaimMap",
-   "miss counting: one independent store write per validator address, no shared state; MODELLED as fold_left bump_miss over missers (order irrelevance: C07_miss_order_free)");
-  ("x/oracle/keeper/feeder.go|Keeper.RewardBallotWinners|range|validatorClaimMap",
-   "weight sum and per-validator AllocateTokensToValidator / DecCoins.Add are commutative; MODELLED as sums over the claim list (C07_reward_order_free)");
-  ("x/oracle/voteprocessor/voteprocessor.go|*VoteProcessor[Source, Data].TallyVotes|range|votes",
-   "per-source decision written into a result map and Miss flags only ever set to true (idempotent); MODELLED as tally_results / missers (C07_tally_order_free)");
-  ("x/oracle/voteprocessor/voteprocessor.go|*VoteProcessor[Source, Data].pickMostVoted|range|voteCount",
+  ("x/oracle/abci.go|EndBlocker|range|validatorClaimMap exits=0 calls=k.GetMissCount,k.SetMissCount",
+   "miss counting: one independent store write per validator address, no shared state, no early exit; MODELLED as fold_left bump_miss over missers (order irrelevance: C07_miss_order_free)");
+  ("x/oracle/keeper/feeder.go|Keeper.RewardBallotWinners|range|validatorClaimMap exits=0 calls=",
+   "weight sum: integer addition is commutative, no call, no exit; MODELLED as sumZ over the winners (C07_reward_order_free)");
+  ("x/oracle/keeper/feeder.go|Keeper.RewardBallotWinners|range|validatorClaimMap exits=1 calls=k.DistributionKeeper.AllocateTokensToValidator,k.StakingKeeper.GetValidator",
+   "per-validator AllocateTokensToValidator / DecCoins.Add commute; the one exit is 'validator not found', impossible for a member of the claim map built from the staking store in the same block; the bank transfer happens ONCE, after the loop; MODELLED as sums over the claim list (C07_reward_order_free)");
+  ("x/oracle/voteprocessor/voteprocessor.go|*VoteProcessor[Source, Data].TallyVotes|range|votes exits=0 calls=",
+   "Miss flags only ever set to true (idempotent), no exit; MODELLED as missers (C07_missers_order_free)");
+  ("x/oracle/voteprocessor/voteprocessor.go|*VoteProcessor[Source, Data].TallyVotes|range|votes exits=0 calls=vp.pickMostVoted,vp.topic.String",
+   "per-source decision written into a result map keyed by the source, no exit; MODELLED as tally_results (C07_tally_order_free)");
+  ("x/oracle/voteprocessor/voteprocessor.go|*VoteProcessor[Source, Data].pickMostVoted|range|voteCount exits=0 calls=",
    "filters the counts above the threshold into another map: set semantics (pick_spec)");
-  ("x/oracle/voteprocessor/voteprocessor.go|*VoteProcessor[Source, Data].pickMostVoted|range|voteCountAboveThreshold",
-   "executed only when that map has exactly one entry (pick_spec)")].
+  ("x/oracle/voteprocessor/voteprocessor.go|*VoteProcessor[Source, Data].pickMostVoted|range|voteCountAboveThreshold exits=1 calls=",
+   "executed only when that map has exactly one entry: the early return takes that entry (pick_spec)")].
 
 Definition clock_table : list (string * string) := [
   ("x/oracle/abci.go|EndBlocker|clock|time.Now()",
